@@ -11,7 +11,7 @@ import os
 import sys
 import time
 import traceback
-from concurrent.futures import ProcessPoolExecutor
+from concurrent.futures import ProcessPoolExecutor, TimeoutError as FuturesTimeout
 from typing import Dict, List
 
 import z3
@@ -164,10 +164,21 @@ def verify_all(mod_names: List[str], keys: List[str], workers: int = 16, timeout
     out = {}
     replays = replays or {}
     workers = max(2, min(workers, os.cpu_count() or 2))
-    with ProcessPoolExecutor(max_workers=workers) as ex:
+    # wall-clock watchdog: z3 does not honour its own timeout in every phase (a changed body once kept a worker busy for hours);
+    # a target / VC that overruns is UNDECIDED (never a verdict), and the stuck worker is killed at the end
+    a_limit = float(os.environ.get("PYVC_TARGET_WALL_S", "900"))
+    b_limit = float(os.environ.get("PYVC_VC_WALL_S", "420"))
+    t_start = time.time()
+    ex = ProcessPoolExecutor(max_workers=workers)
+    try:
         futs = {k: ex.submit(phase_a, mod_names, k, timeout_ms) for k in keys}
         for k, f in futs.items():
-            out[k] = f.result()
+            try:
+                out[k] = f.result(timeout=max(5.0, a_limit * max(1, (len(keys) + workers - 1) // workers) - (time.time() - t_start)))
+            except FuturesTimeout:
+                out[k] = {"key": k, "status": "engine-timeout", "detail": "symbolic execution / quick discharge exceeded the wall limit of %ds" % a_limit, "results": [], "info": {}, "gen_s": a_limit}
+            except Exception:
+                out[k] = {"key": k, "status": "engine-error", "detail": "worker died: " + traceback.format_exc()[-600:], "results": [], "info": {}, "gen_s": 0.0}
         tasks = []
         for k in keys:
             r = out[k]
@@ -176,9 +187,12 @@ def verify_all(mod_names: List[str], keys: List[str], workers: int = 16, timeout
             for x in r["results"]:
                 if x["status"] != "unsat":
                     tasks.append((k, x, ex.submit(phase_b, mod_names, k, x["index"], x["name"], replays.get(k, ""))))
+        tb = time.time()
         for (k, x, f) in tasks:
             try:
-                b = f.result()
+                b = f.result(timeout=max(5.0, b_limit * max(1, (len(tasks) + workers - 1) // workers) - (time.time() - tb)))
+            except FuturesTimeout:
+                b = {"status": "unknown", "backend": "", "seconds": b_limit, "detail": "phase B exceeded the wall limit", "confirmed": None, "artefacts": []}
             except Exception:
                 b = {"status": "unknown", "backend": "", "seconds": 0.0, "detail": "phase B crashed: " + traceback.format_exc()[-300:], "confirmed": None, "artefacts": []}
             x["seconds"] += b["seconds"]
@@ -188,15 +202,31 @@ def verify_all(mod_names: List[str], keys: List[str], workers: int = 16, timeout
                 x["status"] = b["status"]
                 x["backend"] = b["backend"] or x["backend"]
                 x["confirmed"] = b["confirmed"]
+    finally:
+        procs = list(getattr(ex, "_processes", {}).values())
+        ex.shutdown(wait=False, cancel_futures=True)
+        for pr in procs:
+            try:
+                if pr.is_alive():
+                    pr.kill()
+            except Exception:
+                pass
     # phase C: whatever is still open is retried alone, sequentially (at most a handful: a broken tree fails many VCs, and
     # those need no retry once one of them has a confirmed counterexample)
     still = [(k, x) for k in keys if out[k]["status"] == "ok" for x in out[k]["results"] if x["status"] not in ("unsat", "sat")]
     any_confirmed = any(x.get("confirmed") for k in keys if out[k]["status"] == "ok" for x in out[k]["results"])
     if still and not any_confirmed and len(still) <= 6:
-        with ProcessPoolExecutor(max_workers=1) as ex1:
+        ex1 = ProcessPoolExecutor(max_workers=1)
+        try:
             for (k, x) in still:
                 try:
-                    cres = ex1.submit(phase_c, mod_names, k, x["index"], x["name"]).result()
+                    cres = ex1.submit(phase_c, mod_names, k, x["index"], x["name"]).result(timeout=240)
+                except FuturesTimeout:
+                    cres = {"status": "unknown", "detail": "phase C exceeded the wall limit"}
+                    for pr in list(getattr(ex1, "_processes", {}).values()):
+                        pr.kill()
+                    ex1.shutdown(wait=False, cancel_futures=True)
+                    ex1 = ProcessPoolExecutor(max_workers=1)
                 except Exception:
                     cres = {"status": "unknown", "detail": "phase C crashed"}
                 x["detail"] += "; " + cres.get("detail", "")
@@ -204,6 +234,13 @@ def verify_all(mod_names: List[str], keys: List[str], workers: int = 16, timeout
                 if cres["status"] == "unsat":
                     x["status"] = "unsat"
                     x["backend"] = cres["backend"]
+        finally:
+            for pr in list(getattr(ex1, "_processes", {}).values()):
+                try:
+                    pr.kill()
+                except Exception:
+                    pass
+            ex1.shutdown(wait=False, cancel_futures=True)
     return out
 
 
